@@ -4,6 +4,7 @@ use crate::oracles;
 use crate::plangen::{SetupOpts, Weights, plan_strategy};
 use crate::props::common::{base_report, judge, run_plan};
 use crate::runner::{Args, CaseReport, Failure, Mode, RunPlan, Spec, Tier, drive};
+use proptest::prelude::*;
 use crate::world::{Cfg, NoObserver, Plan, Regime};
 
 pub fn exec(plan: &Plan, mode: Mode) -> Result<CaseReport, Failure> {
@@ -69,7 +70,7 @@ pub fn main(args: &Args) -> i32 {
     let spec = Spec {
         id: "C02",
         level: "exploration",
-        rule: "C01-style plans enriched with application messages; judged per (message, receiver) pair after quiescence against the sender's rumor; bursts of up to 16 messages by one member and small non-default sender-ratchet windows (out-of-order tolerance 3..12, forward distance 5..30, past epochs 3 and 7) make the window boundaries reachable: a message is don't-care only if it may lie outside the receiver's configured window for some ratchet position between 0 and the highest position handed over before, otherwise it must be stored; non-trivial = a message first handed to a receiver after the receiver changed epoch, or a message of a losing branch held by a converged client; distinct = distinct plans".into(),
+        rule: "C01-style plans enriched with application messages; judged per (message, receiver) pair after quiescence against the sender's rumor; bursts of up to 16 messages by one member and small non-default sender-ratchet windows (out-of-order tolerance 3..12, forward distance 5..30, past epochs 3 and 7) make the window boundaries reachable: a message is don't-care only if it may lie outside the receiver's configured window for some ratchet position between 0 and the highest position handed over before, otherwise it must be stored; a sixth of the histories start with a directed prelude at the boundary of the past-epoch window (a message held back for window - 1, window and window + 1 commits at its receiver and its sender); non-trivial = a message first handed to a receiver after the receiver changed epoch, or a message of a losing branch held by a converged client; distinct = distinct plans".into(),
         assumptions: vec![
             "only members that agree with the reference replica's final state are judged (divergence itself is C01's subject)".into(),
             "deliveries more than max_past_epochs epochs late are don't-care".into(),
@@ -83,7 +84,43 @@ pub fn main(args: &Args) -> i32 {
         args,
         spec,
         RunPlan { cases, workers: 16 },
-        || plan_strategy(&opts, &weights, len.clone()),
+        || {
+            // a sixth of the histories start with a directed prelude at the boundary of the
+            // past-epoch window: a message is held back while its receiver (and its sender)
+            // apply max_past_epochs - 1, exactly max_past_epochs, or one more commit
+            (plan_strategy(&opts, &weights, len.clone()), 0u8..6, 0u8..4)
+                .prop_map(|(mut p, roll, off)| {
+                    if roll == 0 {
+                        use crate::world::{Apply, Op};
+                        p.setup.members = 3;
+                        p.setup.regime = Regime::Causal;
+                        p.setup.cfg.retention = p.setup.cfg.retention.max(2);
+                        let window = p.setup.cfg.max_past_epochs as u32;
+                        // off: 0 -> window - 1, 1 and 2 -> window, 3 -> window + 1
+                        let d = (window + [0u32, 1, 1, 2][off as usize]).saturating_sub(1).max(1);
+                        let n_act = 3 + p.setup.spares as u32;
+                        let act = |i: u32| (((i << 16) / 3) + 1) as u16;
+                        let mem = |i: u32| (((i << 16) / n_act) + 1) as u16;
+                        let mut pre = vec![Op::Msg { m: act(1), kind: 0, at: 0, tag: 1 }];
+                        for _ in 0..d {
+                            pre.push(Op::SelfUpdate { m: act(0), ts: 1, apply: Apply::Echo });
+                            pre.push(Op::SelfEcho { m: mem(0) });
+                            // the newest event only: the commit, not the held-back message
+                            pre.push(Op::Deliver { m: mem(2), sel: u16::MAX });
+                            pre.push(Op::Deliver { m: mem(1), sel: u16::MAX });
+                        }
+                        pre.push(Op::CatchUp { m: mem(2) });
+                        pre.push(Op::CatchUp { m: mem(1) });
+                        pre.push(Op::CatchUp { m: mem(0) });
+                        p.ops.truncate(20);
+                        let tail = std::mem::take(&mut p.ops);
+                        p.ops = pre;
+                        p.ops.extend(tail);
+                    }
+                    p
+                })
+                .boxed()
+        },
         exec,
     )
 }
